@@ -13,6 +13,7 @@ The kind dispatch (`multi!`, `multimulti!`, take/drop's own `match`) and the con
 live in `Impl/SeqLibVal.lean`.  Core Lean only.
 -/
 import NoulithModel.Common
+import NoulithModel.Impl.Stream
 
 namespace Noulith.SeqLib
 open Noulith
@@ -621,25 +622,11 @@ def combinations (xs : List α) (k : Nat) : List (List α) :=
   else forceGo (fun v => (pick xs v, combIncr xs.length v)) (2 ^ xs.length + 1)
     (some (List.range k)) []
 
-/-- `Permutations::next` (streams.rs:188): the scan for `up = (inc, linc)`, then swap and reverse
-the tail.  `v.len() - 1` underflows for the empty vector: `panic` (F14), modelled in the caller. -/
-def permScan (v : Array Nat) : Option (Nat × Nat) := Id.run do
-  let mut up : Option (Nat × Nat) := none
-  for i in [0 : v.size - 1] do
-    if v[i]! < v[i + 1]! then up := some (i, i + 1)
-    else match up with
-      | some (inc, _) => if v[i + 1]! > v[inc]! then up := some (inc, i + 1)
-      | none => pure ()
-  return up
-
-def permIncr (v : List Nat) : Option (List Nat) :=
-  match permScan v.toArray with
-  | none => none
-  | some (inc, linc) =>
-    let a := v.toArray
-    let a := (a.set! inc a[linc]!).set! linc a[inc]!
-    let l := a.toList
-    some (l.take (inc + 1) ++ (l.drop (inc + 1)).reverse)
+/-- `Permutations::next` (streams.rs:188): the scan `for i in 0..(v.len() - 1)` for `up = (inc, linc)`
+(last ascent, last larger entry behind it), then `v.swap(inc, linc); v[inc + 1..].reverse()`.  This is
+the transcription shared with the C11 slice (`Impl/Stream.lean`, `Perm.scanStep` / `Perm.scan` /
+`Perm.swap` / `Perm.advance`), so that the successor lemmas of `Theorems/C11PermStep.lean` apply. -/
+def permIncr (v : List Nat) : Option (List Nat) := Noulith.Stream.Perm.advance v
 
 def factorial : Nat → Nat
   | 0 => 1
@@ -699,5 +686,82 @@ def lines [BEq γ] (nl : γ) (s : List γ) : List (List γ) :=
   match parts.getLast? with
   | some [] => parts.dropLast
   | _ => parts
+
+/-! ## more of the library: substring search, bounded split, dictionary merge -/
+
+/-- `str::find(&str)` (std; also behind `str::contains`): the first position where `pat` occurs,
+scanning left to right; `i` counts the positions passed -/
+def findSubGo [BEq γ] (pat : List γ) : Nat → List γ → Option Nat
+  | i, [] => if pat.isEmpty then some i else none
+  | i, c :: cs => if pat.isPrefixOf (c :: cs) then some i else findSubGo pat (i + 1) cs
+
+def findSub [BEq γ] (pat s : List γ) : Option Nat := findSubGo pat 0 s
+
+/-- `str::splitn(n, pat)` (std `SplitN::next`): `count = 0` => end; `count = 1` => the remainder is
+the last piece; otherwise one more piece from the inner `split` (non-empty pattern; `cur` is the
+piece being collected, `fuel` makes the recursion structural) -/
+def splitnGo [BEq γ] (pat : List γ) : Nat → Nat → List γ → List γ → List (List γ)
+  | 0, _, cur, _ => [cur]
+  | _, 0, _, _ => []
+  | _, 1, cur, s => [cur ++ s]
+  | _, _ + 2, cur, [] => [cur]
+  | fuel + 1, n + 2, cur, c :: cs =>
+    match stripPrefix? pat (c :: cs) with
+    | some rest => cur :: splitnGo pat fuel (n + 1) [] rest
+    | none => splitnGo pat fuel (n + 2) (cur ++ [c]) cs
+
+/-- `s.splitn(n, t)`; with the empty pattern the pieces are "", each char, "" and the `n`-th piece
+is the unsplit remainder -/
+def splitn [BEq γ] (s pat : List γ) (n : Nat) : List (List γ) :=
+  if pat.isEmpty then
+    let ps := [[]] ++ s.map (fun c => [c]) ++ [[]]
+    if n = 0 then [] else if ps.length ≤ n then ps else ps.take (n - 1) ++ [(ps.drop (n - 1)).flatten]
+  else splitnGo pat (s.length + 1) n [] s
+
+/-- `str::rsplit` / `rsplitn` (std): the same scan from the right end, modelled on the reversed
+text -/
+def rsplit [BEq γ] (s pat : List γ) : List (List γ) := (split s.reverse pat.reverse).map List.reverse
+def rsplitn [BEq γ] (s pat : List γ) (n : Nat) : List (List γ) :=
+  (splitn s.reverse pat.reverse n).map List.reverse
+
+/-- `Merge` (lib.rs:1459), one `ret.entry(k)`: vacant => insert; occupied => overwrite, or
+`f(old, v)` when a function was given (`ret` as an association list in insertion order) -/
+def mergeEntry [BEq κ] (f : Option (β → β → Out β)) (k : κ) (v : β) : List (κ × β) → Out (List (κ × β))
+  | [] => .ok [(k, v)]
+  | (k', old) :: m =>
+    if k' == k then
+      match f with
+      | none => .ok ((k', v) :: m)
+      | some f =>
+        match f old v with
+        | .ok r => .ok ((k', r) :: m)
+        | .throw => .throw
+        | .panic => .panic
+    else
+      match mergeEntry f k v m with
+      | .ok m' => .ok ((k', old) :: m')
+      | .throw => .throw
+      | .panic => .panic
+
+/-- `for (k, v) in dict` -/
+def mergeDict [BEq κ] (f : Option (β → β → Out β)) : List (κ × β) → List (κ × β) → Out (List (κ × β))
+  | ret, [] => .ok ret
+  | ret, (k, v) :: d =>
+    match mergeEntry f k v ret with
+    | .ok ret' => mergeDict f ret' d
+    | .throw => .throw
+    | .panic => .panic
+
+/-- `for dict in dicts` -/
+def mergeAll [BEq κ] (f : Option (β → β → Out β)) : List (κ × β) → List (List (κ × β)) → Out (List (κ × β))
+  | ret, [] => .ok ret
+  | ret, d :: ds =>
+    match mergeDict f ret d with
+    | .ok ret' => mergeAll f ret' ds
+    | .throw => .throw
+    | .panic => .panic
+
+def merge [BEq κ] (f : Option (β → β → Out β)) (dicts : List (List (κ × β))) : Out (List (κ × β)) :=
+  mergeAll f [] dicts
 
 end Noulith.SeqLib
